@@ -22,6 +22,26 @@ claimed = {
    text="The fault 'stream ends early' is enumerated at EVERY line boundary of every valid program (complete per input <= 16 KiB), each under one-shot and two seeded short-read plans; the prefix must parse or fail with IsIncomplete. Every positioned error seen (also on corrupted/truncated inputs) must lie inside the delivered bytes.",
    note="Validity of a program in a variant is decided by the parser under test. Programs are sampled (corpus + generator); cut points per program are complete. Exact offset/line:col agreement is tallied, not gated.",
    tech="deterministic simulation: EOF-fault enumeration at all line boundaries on a simulated reader + corrupted-byte faults for the position clause", ref="DESIGN.md §3.1, §5 C10"),
+ "C27": dict(cat="exploration", eng="worldB",
+   text="Seeded exploration: generated parent states x generated mutating lists S in every isolating context (subshell, $( ), <( ), >( ), first/middle/last pipeline stage, background job, nestings), optional parent-side statements running while the child lives, under seeded interleavings (random, preemption-bounded, PCT, starvation), tiny pipe capacities and FIFO/exec faults; refinement oracle: in-shell state dump and Go-level Vars/Funcs/Dir/Params equal those of a sequential reference run without S.",
+   note="Trusts the same interpreter's sequential run without S as the reference for parent state; pipes/FIFOs/files/commands are stubs; generated programs use a fixed vocabulary of state-changing statements.",
+   tech="deterministic simulation: controller-owned goroutine interleaving in a synctest bubble + fault injection; refinement against a reference run", ref="DESIGN.md §3.2, §5 C27"),
+ "C29": dict(cat="exploration", eng="worldB",
+   text="Seeded exploration: generated programs exercising alias/declare/brace/here-doc/function/trap/background/pipe mechanisms run under seeded interleavings with cancellation at a seeded step and I/O faults; the tree (typed JSON + printed form) is compared before Run and after every spawned goroutine finished; the supplied Environ records writes and is deep-compared including spare slice capacity.",
+   note="typedjson + printed form stand for 'the tree'; Environ is a recording implementation serving string, indexed, sparse and associative values.",
+   tech="deterministic simulation: controlled interleaving + cancellation/I-O fault injection; before/after invariant on tree and Environ", ref="DESIGN.md §3.2, §5 C29"),
+ "C30": dict(cat="exploration", eng="worldB",
+   text="Seeded exploration of reuse histories: 1..6 programs on one Runner ending normally, by exit, fatal handler error or cancellation at a seeded step, with jobs left running, then Reset+Run(P) compared with a fresh Runner (output, error, Exited, Vars, Funcs, Dir, Params); plus statement-by-statement Run vs whole-file Run.",
+   note="External state (simulated files, stdin bytes) is kept out of the comparison by construction. The reference is the same interpreter on a new Runner.",
+   tech="deterministic simulation: history generation with cancellation (crash-restart analogue) and fault injection; refinement against a fresh Runner", ref="DESIGN.md §3.2, §5 C30"),
+ "C31": dict(cat="exploration", eng="worldB",
+   text="Bounded liveness under cancellation: 38 non-terminating/blocking program shapes x cancellation steps (0..23 enumerated per program, later ones drawn) x interleavings and pipe capacities; after the cancel event Run must return within 2000 scheduling steps and 3 s of simulated time with a non-nil error, and the simulation must never reach a state with nothing runnable and no timer.",
+   note="Simulated commands die at once on cancellation except 'stubborn' (<= 2 s), modelling the kill timeout; the real DefaultExecHandler signal path is not simulated.",
+   tech="deterministic simulation: cancellation injected at enumerated/seeded controller steps, fake clock, deadlock detection by quiescence", ref="DESIGN.md §3.2, §5 C31"),
+ "C32": dict(cat="exploration", eng="worldB",
+   text="Seeded exploration: generated concurrent programs (jobs, pipelines, |&, process/command substitutions, functions in jobs) with parent and children touching the same names, Runner.Subshell copies run concurrently with their parent, under controlled interleavings with the Go race detector on and the scheduler's hand-offs hidden from it; plus wait gN status oracle with simulated job durations.",
+   note="A race is found only if both accesses execute in the run; reports are per-process-once so attribution is to the first run showing it. Simulated pipes order writer->reader like real pipes.",
+   tech="deterministic simulation: controller-owned interleaving under -race (invisible hand-off), fault injection to reach error paths; direct oracle for wait statuses", ref="DESIGN.md §3.2, §5 C32"),
 }
 
 pending = {  # id -> reason while a check is under construction
@@ -61,8 +81,6 @@ na = {
 
 checks = []
 for pid, c in claimed.items():
-    if not os.path.exists(f"{V}/sim/cmd/worlda") and c["eng"] == "worldA":
-        continue
     checks.append({
         "property_id": pid,
         "quick_cmd": f"./check {pid} quick",
